@@ -342,6 +342,11 @@ tcp_send(void *arg, nni_aio *aio)
 		nni_mtx_unlock(&c->mtx);
 		return;
 	}
+	if (c->closed) {
+		nni_mtx_unlock(&c->mtx);
+		nni_aio_finish_error(aio, NNG_ECLOSED);
+		return;
+	}
 	nni_aio_list_append(&c->writeq, aio);
 
 	if (nni_list_first(&c->writeq) == aio) {
@@ -365,6 +370,11 @@ tcp_recv(void *arg, nni_aio *aio)
 	nni_mtx_lock(&c->mtx);
 	if (!nni_aio_start(aio, tcp_cancel, c)) {
 		nni_mtx_unlock(&c->mtx);
+		return;
+	}
+	if (c->closed) {
+		nni_mtx_unlock(&c->mtx);
+		nni_aio_finish_error(aio, NNG_ECLOSED);
 		return;
 	}
 	nni_aio_list_append(&c->readq, aio);
